@@ -34,16 +34,31 @@ class Env:
         return I, ctx
 
 
+class JobTimeout(Exception):
+    pass
+
+
+def _alarm(sig, frm):
+    raise JobTimeout()
+
+
 def _worker(job):
     t = time.time()
     res = dict(name=job['name'], status='inconclusive', cex=[], obligations=0, samples=[], stats={}, err=None)
+    limit = int(getattr(_ENV.mod, 'JOB_TIMEOUT_S', {}).get(_ENV.tier, 300 if _ENV.tier == 'quick' else 3600))
+    signal.signal(signal.SIGALRM, _alarm)
+    signal.alarm(limit)
     try:
         r = _ENV.mod.run_job(_ENV, job)
         res.update(r)
+    except JobTimeout:
+        res['err'] = 'Inconclusive: job exceeded its %d s budget (reported as a reduced bound, never as a pass)' % limit
     except (Unsupported, Inconclusive) as e:
         res['err'] = '%s: %s' % (type(e).__name__, e)
     except Exception:
         res['err'] = traceback.format_exc()
+    finally:
+        signal.alarm(0)
     res['wall'] = time.time() - t
     return res
 
